@@ -19,7 +19,7 @@ EXPLANATION = (
     '(C07.R2 + C07.R3 re-evaluated), without which nothing is refreshed.'
 )
 ASSUMPTIONS = ["asyncio.timeout/reschedule semantics as documented"]
-FLOORS = {"C14.R1": 8, "C14.R2": 3, "C14.R3": 8, "C14.R4": 4, "C14.R5": 1, "C14.R6": 1, "C14.R7": 1}
+FLOORS = {"C14.R1": 8, "C14.R2": 3, "C14.R3": 8, "C14.R4": 4, "C14.R5": 1, "C14.R6": 1, "C14.R7": 1, "C14.R8": 1}
 
 
 def run(ctx):
@@ -36,6 +36,10 @@ def run(ctx):
 
     reuse(ctx, "C14.R7", [c08.r5], "the reconnection a reset promises is not cancelled from a connection callback: only shutdown() stops the heartbeat tasks, one of which is the task running the reset (C08.R5)",
           keep=lambda o: "who-may-call" in o.construct or o.verdict != "HOLDS")
+    from . import c10
+
+    reuse(ctx, "C14.R8", [c10.r2], "whatever the refresh returns is stored: every update_* replaces the stored record on every path (C10.R2)",
+          keep=lambda o: "last-writer" in o.construct or "stored-before" in o.construct or o.verdict != "HOLDS")
     reuse(ctx, "C14.R6", [c01.r3], "the refresh requests queued on reconnection are written: the queue is drained after every connect and the drain can always start (C01.R3)")
     reuse(ctx, "C14.R5", [c07.r2, c07.r3], "after a connection loss the client reconnects (C07.R2 reset, C07.R3 retry), which is what triggers the refresh")
 
@@ -128,6 +132,10 @@ def r2(ctx):
     calls = [c for n, c in nc.calls("self._notify_subscribers")]
     ok = bool(calls) and any(isinstance(x, (ast.ListComp, ast.GeneratorExp)) and any(dotted(gen.iter) == "self._connection_subscribers" for gen in x.generators) for c in calls for x in ast.walk(c))
     ctx.check(ok, R, "_notify_connection_changed:all-subscribers", m, nc.node, "every connection subscriber is invoked", "subscriber set not iterated")
+    # ... unconditionally: the helper neither filters (no early return, no "already told them" memory) nor keeps state
+    cond_exit = [x for x in ast.walk(nc.node) if isinstance(x, (ast.Return, ast.If, ast.IfExp))]
+    stores = [x for x in ast.walk(nc.node) if isinstance(x, (ast.Assign, ast.AugAssign, ast.AnnAssign)) and any((dotted(t) or "").startswith("self.") for t in (x.targets if isinstance(x, ast.Assign) else [x.target]))]
+    ctx.check(not cond_exit and not stores, R, "_notify_connection_changed:unconditional", m, (cond_exit + stores)[0] if (cond_exit or stores) else nc.node, "every connection change is passed on: no condition, no remembered state in the helper", "the notification can be suppressed (a reconnection whose 'connected' is swallowed triggers no refresh)")
     # the refresh sends run inside send() -> _enqueue_message: the purge must not be able to raise (ascending-index deletion does)
     from . import c16
 
